@@ -361,6 +361,75 @@ pub fn run(ctx: &mut Ctx) {
     }
   }
 
+  // ---- (E) quiet sweep: everything a guest can poke except a serial transfer -
+  // every value into every bank-register area and every I/O register of every
+  // cartridge kind, cartridge RAM accesses, LCD off/on, two frames of time.
+  // No SC write with bit 7 is made, so stdout must stay empty.
+  {
+    let kinds: [(u8, u8, u8); 8] = [(0x00, 0x00, 0x00), (0x01, 0x04, 0x00), (0x02, 0x03, 0x02), (0x03, 0x06, 0x03), (0x11, 0x04, 0x00), (0x12, 0x02, 0x02), (0x13, 0x06, 0x03), (0x13, 0x02, 0x03)];
+    let mut quiet_writes = 0u64;
+    for (ki, &(ct, rc, rac)) in kinds.iter().enumerate() {
+      let u = unit;
+      unit += 1;
+      if !ctx.mine(u) {
+        continue;
+      }
+      ctx.intent2(u, 5);
+      let mut image = support::make_image(ct, rc, rac);
+      support::stamp_header(&mut image, ct, rc, rac);
+      let mut core = support::core_from_image(&image);
+      let cap = Capture::start(u);
+      let mp = &mut core.memory as *mut MemoryAreas;
+      for &base in [0x0000u16, 0x1fff, 0x2000, 0x2100, 0x3fff, 0x4000, 0x5fff, 0x6000, 0x7fff].iter() {
+        for v in 0..=255u8 {
+          memory_write_byte(mp, base, v);
+          let _ = crate::mem::memory_read_byte(mp, 0x4000);
+          let _ = crate::mem::memory_read_byte(mp, 0xa000 + v as u16);
+          memory_write_byte(mp, 0xbf00 + v as u16, v);
+          quiet_writes += 2;
+        }
+      }
+      for off in 0..=0xffu16 {
+        for v in 0..=255u8 {
+          if off == 0x02 && v & 0x80 != 0 {
+            continue; // a transfer: sections (A), (B), (D)
+          }
+          memory_write_byte(mp, 0xff00 + off, v);
+          let _ = crate::mem::memory_read_byte(mp, 0xff00 + off);
+          quiet_writes += 1;
+          if v % 16 == 5 {
+            core.memory.run_clock_cycles(crate::timing::ClockCycles(4 * (1 + (v as usize >> 4))));
+          }
+        }
+      }
+      // LCD off, time, LCD on, two frames of time; unmapped regions
+      memory_write_byte(mp, 0xff40, 0x11);
+      core.memory.run_clock_cycles(crate::timing::ClockCycles(70224));
+      memory_write_byte(mp, 0xff40, 0x91);
+      for _ in 0..40 {
+        core.memory.run_clock_cycles(crate::timing::ClockCycles(3512));
+      }
+      for a in (0xe000u32..0xff00).step_by(7) {
+        memory_write_byte(mp, a as u16, a as u8);
+        let _ = crate::mem::memory_read_byte(mp, a as u16);
+        quiet_writes += 1;
+      }
+      let got = cap.finish();
+      evaluations += 1;
+      if !got.is_empty() {
+        ctx.violation(
+          &format!("C18:{}:core-prints-on-stdout:quiet-sweep", engine),
+          &format!(
+            "cartridge type {:02X} (ROM code {:02X}, RAM code {:02X}): every value written to every bank-register area and I/O register (no serial transfer): stdout received {} bytes: {:?}",
+            ct, rc, rac, got.len(), String::from_utf8_lossy(&got[..got.len().min(100)])
+          ),
+        );
+      }
+      ctx.distinct_key(hash_words(&[5, ki as u64]));
+    }
+    ctx.count("quiet-sweep:writes-with-stdout-captured", quiet_writes);
+  }
+
   // ---- (D) the repository's own binary, hooks off
   let bins: Vec<(String, &str)> = vec![(std::env::var("GBV_REPO_BIN").unwrap_or_default(), "repo-binary"), (std::env::var("GBV_REPO_BIN_JIT").unwrap_or_default(), "repo-binary-jit")];
   let nreal: u64 = if thorough { 64 } else { 16 };
